@@ -125,6 +125,15 @@ class Parser:
             if self.isid("mut"):
                 self.next()
             return self.type_()
+        if self.isop("("):          # tuple type
+            self.next()
+            items = []
+            while not self.isop(")"):
+                items.append(self.type_())
+                if self.isop(","):
+                    self.next()
+            self.expect(")")
+            return ("tuplety", items)
         if self.isop("*"):          # raw pointer type
             self.next()
             if self.isid("mut") or self.isid("const"):
@@ -556,6 +565,9 @@ class Ctx:
         self.lines.append(self.indent + s)
 
 
+INT_MAX = {"usize::MAX": 2 ** 64 - 1, "u64::MAX": 2 ** 64 - 1, "u32::MAX": 2 ** 32 - 1, "u16::MAX": 65535, "u8::MAX": 255}
+
+
 def in_scope(cx, entry, f):
     """evaluate f(ast) for a closure-parameter / loop-index binding in the scope where the argument was written"""
     ast, scope = entry
@@ -577,8 +589,15 @@ def const_eval(e, cx):
     if k == "var":
         if e[1] in cx.subst:
             return in_scope(cx, cx.subst[e[1]], lambda a: const_eval(a, cx))
+        if e[1] in INT_MAX:
+            return INT_MAX[e[1]]
         v = cx.consts.get(e[1])
         return v if isinstance(v, int) else None
+    if k == "call" and e[1][0] == "var" and e[1][1] in ("min", "max") and len(e[2]) == 2:
+        a, b = const_eval(e[2][0], cx), const_eval(e[2][1], cx)
+        if a is None or b is None:
+            return None
+        return min(a, b) if e[1][1] == "min" else max(a, b)
     if k == "cast":
         return const_eval(e[1], cx)
     if k == "bin":
@@ -1285,6 +1304,8 @@ def for_stmt(s, cx):
 
 # ------------------------------------------------------------------------------------------------ function-level driver
 def lean_type(t):
+    if isinstance(t, tuple) and t[0] == "tuplety":
+        return " × ".join(lean_type(x) for x in t[1])
     if isinstance(t, tuple) and t[0] == "arr" and t[1] == "u8":
         return "Bytes"
     if t in WIDTH:
@@ -1747,6 +1768,8 @@ def crate_consts(repo, names):
         refs = set()
         names_in(e, refs)
         for r in refs:
+            if r in INT_MAX or r in ("min", "max"):
+                continue
             resolve(r, depth + 1)
         v = const_eval(e, Ctx({}, out))
         if v is None:
@@ -1798,7 +1821,40 @@ def k_curve(repo):
     return out + "end DryocVerif.Gen.Curve\n"
 
 
-KERNELS = {"Curve": k_curve, "Protected": k_protected, "Core": k_core, "Argon2": k_argon2, "Utils": k_utils, "Poly1305": k_poly1305, "Blake2b": k_blake2b, "SipHash": k_siphash}
+def k_pwhash(repo):
+    """cost conversion and parameter guards of crypto_pwhash / crypto_pwhash_str, and the memory geometry of argon2_hash"""
+    path = "src/classic/crypto_pwhash.rs"
+    src = strip_tests(open(os.path.join(repo, path)).read())
+    out = header(path + ", src/argon2.rs", "Pwhash")
+    out += translate_fn(src, "convert_costs", {}, {}) + "\n"
+    names = sorted(set(re.findall(r"\bCRYPTO_PWHASH_[A-Z0-9_]+", src)))
+    for fn in ("crypto_pwhash", "crypto_pwhash_str"):
+        _, _, body = find_fn(src, fn)
+        ic = body.find("convert_costs(")
+        if ic < 0:
+            fail("%s: no call of convert_costs" % fn)
+        guards, last_end = [], 0
+        for m in re.finditer(r"validate!\s*\(", body):
+            pz = Parser(lex(body[m.end() - 1:]))
+            pz.expect("(")
+            a = pz.args()
+            if len(a) != 4 or a[3][0] != "str":
+                fail("%s: validate! shape" % fn)
+            cs_ = crate_consts(repo, [n for n in names if n in (norm_text(a[0]), norm_text(a[1]))])
+            lo, hi = const_eval(a[0], Ctx({}, cs_)), const_eval(a[1], Ctx({}, cs_))
+            if lo is None or hi is None or a[2][0] != "var":
+                fail("%s: validate! bounds are not constants / value is not a parameter" % fn)
+            guards.append((lo, hi, a[2][1], m.start()))
+        out += "def %s_guards : List (Nat × Nat × String) := [%s]\n\n" % (fn, ", ".join('(%d, %d, "%s")' % (g[0], g[1], g[2]) for g in guards))
+        out += "def %s_validates_before_convert : Bool := %s\n\n" % (fn, "true" if guards and all(g[3] < ic for g in guards) else "false")
+    asrc = strip_tests(open(os.path.join(repo, "src/argon2.rs")).read())
+    sp, _ = const_table(asrc, "ARGON2_SYNC_POINTS")
+    out += translate_region(asrc, "argon2_hash", {}, {"ARGON2_SYNC_POINTS": sp}, start="let memory_blocks = if", stop="let context", lean_name="memory_geometry",
+                            params=[("m_cost", "u32"), ("parallelism", "u32")], pre={}, rename={}, outputs=["memory_blocks", "segment_length"]) + "\n"
+    return out + "end DryocVerif.Gen.Pwhash\n"
+
+
+KERNELS = {"Pwhash": k_pwhash, "Curve": k_curve, "Protected": k_protected, "Core": k_core, "Argon2": k_argon2, "Utils": k_utils, "Poly1305": k_poly1305, "Blake2b": k_blake2b, "SipHash": k_siphash}
 
 
 def main(argv):
